@@ -78,11 +78,12 @@ def cases(tier, seed):
             if pair.split("-")[1] not in ("PM", "RB"):
                 continue
             out.append({"law": law, "compliance": form, "sub": "tpi", "pair": pair, "dist": DISTS[1], "reg": "law_after_reinit", "vel": "rest", "seed": seed})
+            out.append({"law": law, "compliance": form, "sub": "tpi", "pair": pair, "dist": DISTS[1], "reg": "second_law_after_reinit", "vel": "rest", "seed": seed})
         for pair in REV_PAIRS:
             for a0 in ANGLE0[:2]:
                 for axis in (0, 1, 2):
                     out.append({"law": law, "compliance": form, "sub": "revolute", "pair": pair, "angle0": a0, "axis": axis, "reg": "law_after_reinit", "vel": "rest", "seed": seed})
-    order = REGS + ["law_after_reinit"]
+    order = REGS + ["law_after_reinit", "second_law_after_reinit"]
     out.sort(key=lambda c: (c["vel"] != "rest", order.index(c["reg"]), c["sub"] != "tpi"))
     return out
 
@@ -186,8 +187,14 @@ def _build(case, explicit):
         law = MaxwellElement(sub, 11.0, 0.7, l_ref=l_ref, q0=np.zeros(1))
 
     items = list(bodies)
-    if case["reg"] == "law_after_reinit":
-        system.add(*(items + [sub]))
+    if case["reg"] in ("law_after_reinit", "second_law_after_reinit"):
+        if case["reg"] == "second_law_after_reinit":
+            # the interaction is NOT a contribution of its own: a first law (explicit l_ref) wraps and assembles it; after the
+            # re-initialisation a second law without l_ref is attached to the same interaction object (seeded C09-m)
+            first = Spring(sub, 7.0, l_ref=l_expected, compliance_form=False, name="first_law")
+            system.add(*(items + [first]))
+        else:
+            system.add(*(items + [sub]))
         J.assemble(system)
         q = np.array(system.q0, float).copy()
         qd = s2.qDOF
